@@ -125,13 +125,12 @@ Definition test_v1_pool : list (list field) := [
   [mkField (hx "6e69636b6e616d65") 1 KString (CSingular false); mkField (hx "616765") 2 KUint32 (CSingular false)];
   [mkField (hx "6b6579") 1 KString (CSingular false); mkField (hx "76616c7565") 2 KInt32 (CSingular false)];
   [mkField (hx "6b6579") 1 KString (CSingular false); mkField (hx "76616c7565") 2 (KMsg 6) (CSingular true)];
-  [mkField (hx "627265616b66617374") 1 (KEnum [((hx "46525549545f4150504c455f554e535045434946494544"), (0)%Z); ((hx "46525549545f4f4c495645"), (1)%Z); ((hx "46525549545f544f4d41544f"), (2)%Z)]) (CSingular false); mkField (hx "6c756e6368") 2 (KEnum [((hx "46525549545f4150504c455f554e535045434946494544"), (0)%Z); ((hx "46525549545f4f4c495645"), (1)%Z); ((hx "46525549545f544f4d41544f"), (2)%Z)]) (CSingular false); mkField (hx "64696e6e6572") 3 (KEnum [((hx "46525549545f4150504c455f554e535045434946494544"), (0)%Z); ((hx "46525549545f4f4c495645"), (1)%Z); ((hx "46525549545f544f4d41544f"), (2)%Z)]) (CSingular false)];
+  [mkField (hx "627265616b66617374") 1 (KEnum [((hx "46525549545f4150504c455f554e535045434946494544"), (0)%Z); ((hx "46525549545f4f4c495645"), (1)%Z); ((hx "46525549545f544f4d41544f"), (2)%Z)] (0)%Z) (CSingular false); mkField (hx "6c756e6368") 2 (KEnum [((hx "46525549545f4150504c455f554e535045434946494544"), (0)%Z); ((hx "46525549545f4f4c495645"), (1)%Z); ((hx "46525549545f544f4d41544f"), (2)%Z)] (0)%Z) (CSingular false); mkField (hx "64696e6e6572") 3 (KEnum [((hx "46525549545f4150504c455f554e535045434946494544"), (0)%Z); ((hx "46525549545f4f4c495645"), (1)%Z); ((hx "46525549545f544f4d41544f"), (2)%Z)] (0)%Z) (CSingular false)];
   [mkField (hx "6d6f726e696e67") 1 (KMsg 0) (CSingular true)];
   [mkField (hx "6e756d62657273") 1 KInt64 (CRepeated true)];
   [mkField (hx "6d65737361676573") 1 (KMsg 13) (CRepeated false)];
   [mkField (hx "74657874") 1 KString (CSingular true); mkField (hx "696e646578") 2 KUint32 (CSingular true)]
 ].
-
 Definition example_value : value :=
   VObj [(hx "6e616d6573", VObj [(hx "61", VInt 0); (hx "62", VInt 2)]);
         (hx "70656f706c65", VObj [(hx "78", VObj [(hx "616765", VInt 0); (hx "6e69636b6e616d65", VBytes (hx "6e"))])])].
